@@ -181,14 +181,15 @@ def run(chk: core.Check):
     rnd = random.Random(chk.seed + 4)
     chk.extra["rule"] = ("T2: every X explored by MC_Neighbour (13 prefixes x suffixes <= MaxX) x 6 D1 x 7 D2 x spellings; "
                          "T3: random derivations with corrupted/truncated derivations in between; non-trivial = distinct triple")
-    maxx, nvar, nrand = (3, 1, 4000) if chk.tier == "quick" else (4, 2, 60000)
+    maxx, nvar, nrand = (3, 1, 4000) if chk.tier == "quick" else (4, 1, 60000)
     res = core.run_tlc("MC_Neighbour", cfg(maxx, D1SEL), timeout=3000, heap="16g")
     chk.add_tlc(res, f"MC_Neighbour MaxX={maxx}: InvPrefix, InvSuffix over {len(D1SEL)}x{len(D2SEL)} document pairs")
     lem = core.run_tlc("MC_Splitter", splitpipe.mc_cfg(3, range(1, splitpipe.NPREFIX + 1)), timeout=3000,
                        extra=[], heap="8g")
     chk.add_tlc(lem, "MC_Splitter lemmas PrefixStable, Resync (action properties)")
-    _G.update(bib=bib, seed=chk.seed, nvar=nvar, d1=D1SEL if chk.tier == "thorough" else [2, 3, 10],
-              d2=D2SEL if chk.tier == "thorough" else [2, 3, 4, 8])
+    # the model (T1) covers all 6 x 7 document pairs; the replay uses a covering subset of them per X
+    _G.update(bib=bib, seed=chk.seed, nvar=nvar, d1=[2, 3, 7, 10] if chk.tier == "thorough" else [2, 3, 10],
+              d2=[2, 3, 4, 7, 8] if chk.tier == "thorough" else [2, 3, 4, 8])
     lines = sorted(set(res.raw_lines()))
     if not lines:
         raise core.MachineryError("MC_Neighbour exported nothing")
